@@ -585,7 +585,8 @@ def check_legality_matrix(ctx):
     _RVE_CTX.update(m=m, f=f)
     txt_checks = [
         ("second multi-axis specifier", lambda s: isinstance(s, ast.If) and norm(s.test) == "index_variadic is not None" and _raises_value_error(s.body)),
-        ("`...` combined with anything else", lambda s: isinstance(s, ast.If) and _is_cmp(s.test, _name, ast.NotEq, _const("...")) and _raises_value_error(s.body)),
+        ("`...` combined with anything else", lambda s: isinstance(s, ast.If) and ((_is_cmp(s.test, _name, ast.NotEq, _const("...")) and _raises_value_error(s.body))
+                                                                                     or (_is_cmp(s.test, _name, ast.Eq, _const("...")) and s.orelse and _raises_value_error(s.orelse)))),
         ("comma-separated axes", lambda s: isinstance(s, ast.If) and any(_is_cmp(x, _const(","), ast.In, _name) for x in ast.walk(s.test)) and _raises_value_error(s.body)),
         ("trailing `#`", lambda s: isinstance(s, ast.If) and isinstance(s.test, ast.Call) and isinstance(s.test.func, ast.Attribute) and s.test.func.attr == "endswith"
             and _name(s.test.func.value) and s.test.args and _const("#")(s.test.args[0]) and _raises_value_error(s.body)),
@@ -593,6 +594,9 @@ def check_legality_matrix(ctx):
     g_ = None
     for label, pred in txt_checks:
         hits = [s for s in ast.walk(f.node) if pred(s)]
+        if not hits and label.startswith("`...`") and any(isinstance(x_, ast.Compare) and any(isinstance(y_, ast.Constant) and y_.value == "..." for y_ in [x_.left] + x_.comparators)
+                                                            and isinstance(x_.ops[0], (ast.Eq, ast.NotEq)) for x_ in ast.walk(f.node)):
+            raise AnalysisError("C14.4: the token is still compared with '...' but not in the form `if tok != '...': raise ValueError`; whether every other token containing `...` is rejected is not read")
         if not hits:
             ctx.bad("C14.4", f, f.node, f"the documented illegal form '{label}' is no longer rejected with ValueError", construct=f"illegal form not rejected: {label}")
             continue
